@@ -180,3 +180,39 @@ package flow
 //@   panics never
 //@   witness n = len(rules)
 //@   replay loadrules_nil
+
+// ---- C14: which old controller is kept for a reloaded rule
+//@ spec func needStat(r) = r.TokenCalculateStrategy == WarmUp || r.ControlBehavior == Reject
+//@ spec func sameButThreshold(a, b) = a.Resource == b.Resource && a.RelationStrategy == b.RelationStrategy && a.RefResource == b.RefResource && a.StatIntervalInMs == b.StatIntervalInMs && a.TokenCalculateStrategy == b.TokenCalculateStrategy && a.ControlBehavior == b.ControlBehavior && a.MaxQueueingTimeMs == b.MaxQueueingTimeMs && a.WarmUpPeriodSec == b.WarmUpPeriodSec && a.WarmUpColdFactor == b.WarmUpColdFactor && a.LowMemUsageThreshold == b.LowMemUsageThreshold && a.HighMemUsageThreshold == b.HighMemUsageThreshold && a.MemLowWaterMarkBytes == b.MemLowWaterMarkBytes && a.MemHighWaterMarkBytes == b.MemHighWaterMarkBytes
+//@ spec func eqRule(a, b) = b != nil && sameButThreshold(a, b) && abs(a.Threshold - b.Threshold) < util.precision
+//@ spec func statReusable(a, b) = b != nil && a.Resource == b.Resource && a.RelationStrategy == b.RelationStrategy && a.RefResource == b.RefResource && a.StatIntervalInMs == b.StatIntervalInMs && needStat(a) && needStat(b)
+
+//@ func (r *Rule) isEqualsTo(newRule) res
+//@   props C14
+//@   requires r != nil
+//@   ensures[def] res <==> eqRule(r, newRule)
+//@   ensures[identical-rules-are-equal] newRule != nil && sameButThreshold(r, newRule) && r.Threshold == newRule.Threshold ==> res
+//@   modifies nothing
+
+//@ func (r *Rule) isStatReusable(newRule) res
+//@   props C14
+//@   requires r != nil
+//@   ensures[def] res <==> statReusable(r, newRule)
+//@   modifies nothing
+
+// equalIdx is the first old controller whose rule equals r (else -1); reuseStatIdx the first statistic-compatible
+// one before it (else -1)
+//@ func calculateReuseIndexFor(r, oldResTcs) (equalIdx, reuseStatIdx)
+//@   props C14
+//@   requires forall j Int :: 0 <= j && j < len(oldResTcs) ==> oldResTcs[j] != nil && oldResTcs[j].rule != nil
+//@   let n = len(oldResTcs)
+//@   ensures[ranges] 0 - 1 <= equalIdx && equalIdx < n && 0 - 1 <= reuseStatIdx && reuseStatIdx < n
+//@   ensures[first-equal] equalIdx >= 0 ==> eqRule(oldResTcs[equalIdx].rule, r) && (forall j Int :: 0 <= j && j < equalIdx ==> !eqRule(oldResTcs[j].rule, r))
+//@   ensures[none-equal] equalIdx < 0 ==> (forall j Int :: 0 <= j && j < n ==> !eqRule(oldResTcs[j].rule, r))
+//@   ensures[first-stat-reusable] reuseStatIdx >= 0 ==> statReusable(oldResTcs[reuseStatIdx].rule, r) && (forall j Int :: 0 <= j && j < reuseStatIdx ==> !statReusable(oldResTcs[j].rule, r))
+//@   ensures[none-stat-reusable] reuseStatIdx < 0 ==> (forall j Int :: 0 <= j && j < (equalIdx >= 0 ? equalIdx : n) ==> !statReusable(oldResTcs[j].rule, r))
+//@   modifies nothing
+//@   loop 1:
+//@     invariant[no-equal-yet] equalIdx == 0 - 1 && (forall j Int :: 0 <= j && j < #i ==> !eqRule(oldResTcs[j].rule, r))
+//@     invariant[stat-idx] 0 - 1 <= reuseStatIdx && reuseStatIdx < #i && (reuseStatIdx >= 0 ==> statReusable(oldResTcs[reuseStatIdx].rule, r) && (forall j Int :: 0 <= j && j < reuseStatIdx ==> !statReusable(oldResTcs[j].rule, r)))
+//@     invariant[no-stat-yet] reuseStatIdx < 0 ==> (forall j Int :: 0 <= j && j < #i ==> !statReusable(oldResTcs[j].rule, r))
